@@ -87,6 +87,10 @@ def crossval(ctx) -> None:
     fn = prog.func(f'{METHOD}:CrossVal.produce')
     it = roles.interpret(prog, fn)
     R = roles.Roles(it, {'features': Role(TRAIN, 'WHOLE'), 'labels': Role(LABEL, 'WHOLE')})
+    if not it.incomplete:
+        from . import C03
+
+        C03.connected(ctx, fn, it, R, rule='C12.fold')  # every splitter fork that feeds a fold has its own input fed
     fold_rules(ctx, fn, it, R, 'pipeline', 'CrossVal')
     expands = [e for e in it.events if e.kind == 'expand']
     if not expands or not expands[0].loops:
